@@ -69,6 +69,21 @@ PROPS["C13"] = dict(
     design="DESIGN.md §4 C13",
 )
 
+PROPS["C07"] = dict(
+    technique="static analysis: loop-scoped def-use of task streams (no escape from the iteration), CFG shape of the executor loops, traversal-source and barrier-edge rules on plan construction",
+    text=(
+        "Decides that in SingleThreadedExecutor.execute_dag and both modes of async_map_dag each operation's "
+        "(generation's) task stream is created, fully consumed and dropped inside one iteration of the loop "
+        "over operations, that operations come only from visit_nodes/visit_node_generations which traverse "
+        "the whole dag in topological order filtered only by skip_node, that the parallel map ends only when "
+        "no future is pending, that create-arrays is wired as a predecessor of every executable node, and "
+        "that every array read by an operation is a graph predecessor of it. Together: on every schedule an "
+        "operation starts only after its producers' streams were drained."
+    ),
+    note="asyncio / concurrent.futures scheduling and storage consistency are assumed as documented; FUSE-REWIRE-1 (C02) covers edge preservation through optimisation.",
+    design="DESIGN.md §4 C07",
+)
+
 CLAIMED = sorted(PROPS)
 
 NOT_APPLICABLE = {
